@@ -894,6 +894,11 @@ fn substitute(text: &str, c: &Contracts, remap: &HashMap<(String, usize), Option
             }
         } else if id.starts_with("__vx_inv_") {
             let suffix = &id["__vx_inv_".len()..];
+            // the extent of a loop that is verified in isolation is marked in the generated text (its invariants and body see no fact of the
+            // enclosing code that is not restated in an invariant, so an obligation failing there is more often a proof artefact)
+            if m.get(&format!("__vx_lattr_{}", suffix)).map(|t| t.contains("loop_isolation(true)")).unwrap_or(false) {
+                out.push_str(&format!("\n//@iso-begin {}\n", suffix));
+            }
             let dec = m.get(&format!("__vx_dec_{}", suffix));
             if let Some(t) = m.get(id) { out.push_str("\n//@vc-begin invariant\n invariant\n"); out.push_str(t); out.push_str("//@vc-end\n"); }
             if let Some(t) = dec { out.push_str("\n//@vc-begin decreases\n decreases\n"); out.push_str(t); out.push_str("//@vc-end\n"); }
@@ -905,6 +910,11 @@ fn substitute(text: &str, c: &Contracts, remap: &HashMap<(String, usize), Option
             if let Some(t) = m.get(id) { out.push_str("\n//@vc-begin closure\n"); out.push_str(t); out.push_str("//@vc-end\n"); }
         } else if let Some(txt) = m.get(id) {
             out.push_str("\n//@vc-begin stmt\n"); out.push_str(txt); out.push_str("//@vc-end\n");
+        }
+        if let Some(suffix) = id.strip_prefix("__vx_be_") {
+            if m.get(&format!("__vx_lattr_{}", suffix)).map(|t| t.contains("loop_isolation(true)")).unwrap_or(false) {
+                out.push_str(&format!("\n//@iso-end {}\n", suffix));
+            }
         }
         rest = after;
     }
